@@ -13,6 +13,8 @@
       writes to names no forward reads and that are neither parameters nor buffers; a
       forward-written attribute must be recomputed before it is read.
  R07d the two BatchNorm folding blocks (PIT, MPS) implement the same, correct formula.
+ R07f in-place fusion (BatchNorm folding) is applied once per pair of modules, not once per
+      call site of the pair.
  R07e mode typestate of internal forward passes: the shape-propagation pass of every
       conversion runs after eval() with no train(...) in between (BatchNorm statistics of the
       caller's layers are not updated by the import).
@@ -27,7 +29,7 @@ from ..costlib import layer_map
 from ..effects import Effect, Effects
 from ..model import AnalysisError, ClassInfo, FunctionInfo
 from ..sym import NONE, State, Term, mentions, show, subterms
-from ..util import (SELF, arg, bind_args, callee, canon_torch, guards_of, is_call, method_call, paths,
+from ..util import (SELF, arg, bind_args, callee, canon_torch, guards_of, is_call, method_call, path_guards, paths,
                     returning, short, where)
 
 EXPLANATION = ('Argument-slot agreement of every super().__init__ call against the torch '
@@ -552,7 +554,53 @@ def r07d(ctx):
            'caller\'s model)', where(fn))
 
 
+def r07f(ctx):
+    """In-place fusion is applied once per pair of layers, not once per call site: the loop of
+    fuse_consecutive_layers ranges over graph nodes, and a layer + BatchNorm invoked at two call
+    sites (weight sharing, multi-input forward) is the same pair of modules twice; folding the
+    BatchNorm into the weights a second time changes the function.  The in-place call of the
+    fusion function must be guarded by a membership test on a collection of already fused
+    pairs that the same path updates."""
+    repo = ctx.repo
+    fn = repo.fn('transformation.fuse_consecutive_layers')
+    fparam = ('param', fn.params[3])
+    n = 0
+    ok_all = True
+    bad_node = None
+    for p in paths(repo, fn):
+        for e in p.calls():
+            t = e.data[0]
+            if t[1] != fparam or not any(a == ('param', 'in_place') and v
+                                         for a, v in p.assumptions):
+                continue
+            n += 1
+            guards = [(a, v) for a, v in path_guards(p, e)
+                      if a[0] == 'cmp' and a[1] in ('in', 'not in')]
+            ok = False
+            for a, v in guards:
+                absent = (a[1] == 'not in') == v
+                cont = a[3]
+                updated = any(
+                    (ev.kind == 'call' and method_call(ev.data[0]) is not None and
+                     method_call(ev.data[0])[0] == cont and
+                     method_call(ev.data[0])[1] in ('add', 'append', 'update', 'setdefault')) or
+                    (ev.kind == 'setitem' and ev.data[0] == cont) for ev in p.events)
+                if absent and updated:
+                    ok = True
+            if not ok:
+                ok_all, bad_node = False, e.node
+    if n == 0:
+        raise AnalysisError('R07f: in-place call of the fusion function not found')
+    ctx.ob('R07f', 'fuse_consecutive_layers fuses each pair of layers once', ok_all,
+           'guarded by "pair not yet fused", the collection updated on the same path' if ok_all
+           else 'the fusion function is called for every call site of the pair: a layer followed '
+           'by a BatchNorm that is invoked twice in forward (weight sharing) is folded twice '
+           '(fold_bn=True), so the wrapped model no longer computes the original function',
+           where(fn, bad_node) if bad_node is not None else where(fn))
+
+
 def run(ctx):
+    r07f(ctx)
     r07a(ctx)
     r07b(ctx)
     r07c(ctx)
